@@ -15,7 +15,15 @@ def c12_check(kind, items, ns):
     if kind == "pair":
         a, b = vals
         if (a == a) is not True: bad.append("reflexive: %s == itself is %r" % (items[0], a == a))
-        if (a == b) != (b == a): bad.append("symmetric: (%s == %s) is %r but the reverse is %r" % (items[0], items[1], a == b, b == a))
+        noise = False
+        if isinstance(a, measured.Quantity) and isinstance(b, measured.Quantity):
+            # two quantities whose values differ by the rounding noise of the conversion only (below 1e-9 relative): a floating-point tie
+            try:
+                av_, bv_ = float(a.in_unit(b.unit).magnitude), float(b.magnitude)
+                noise = abs(av_ - bv_) <= 1e-9 * max(abs(av_), abs(bv_)) and not ((a == b) and (b == a))
+            except Exception:
+                pass
+        if (a == b) != (b == a) and not noise: bad.append("symmetric: (%s == %s) is %r but the reverse is %r" % (items[0], items[1], a == b, b == a))
         if isinstance(a, measured.Quantity) and isinstance(b, measured.Quantity):
             lt, gt, eq = cmp(lambda: a < b), cmp(lambda: a > b), a == b
             # "away from floating-point ties": two quantities whose values differ by rounding noise of the conversion only
@@ -66,7 +74,16 @@ def run(tier, seed):
     mags = ["1", "2", "2.5", "1000", "0.001", "Decimal('2.5')", "-3"]
     while evals < n and len([f for f in failures if not f["key"].startswith("hash")]) < 4:
         kind = rng.choice(["q", "q", "m", "m", "level", "sort", "same"])
-        if kind == "same":
+        if kind == "same" and rng.random() < 0.5:
+            # the same quantity written in two different base units with an exact integer ratio (1 ft and 12 in)
+            u, v, ratio = rng.choice([("Foot", "Inch", 12), ("Yard", "Foot", 3), ("Hour", "Minute", 60), ("Minute", "Second", 60), ("Kilogram", "Gram", 1000),
+                                      ("Mile", "Foot", 5280), ("Pound", "Ounce", 16), ("Gallon", "Quart", 4)])
+            m_ = rng.choice([1, 2, 3, 10, 7])
+            items = ["(%d * %s)" % (m_, u), "(%d * %s)" % (m_ * ratio, v)]
+            if u not in ns or v not in ns:
+                continue
+            k = "pair"
+        elif kind == "same":
             # numerically equal magnitudes of different types in one unit
             a, _ = g.pair()
             v = rng.choice([1, 2, 1000, -3, 0])
@@ -75,6 +92,9 @@ def run(tier, seed):
             k = "pair"
         elif kind == "q":
             a, b = g.pair()
+            from .p_c04 import classify as _cls
+            if _cls(a, b, "WRONG", "relative error 1", ns) != "wrong-value":
+                continue  # the recorded conversion findings (dimensionless units in denominators / of different kinds, ton of refrigeration): a wrong conversion orders wrongly too
             m = rng.choice(mags)
             items = ["(%s * %s)" % (m, a), "(%s * %s)" % (rng.choice(mags), b)]
             if rng.random() < 0.4 and "Decimal" not in m:
